@@ -394,6 +394,12 @@ func runBatchCase(b batchCase, tag string) *batchRun {
 	ownIdx := -1
 	if strings.HasPrefix(b.Trigger, "own-ctx") {
 		ownIdx = len(b.Calls) - 1
+		if b.Trigger == "own-ctx-reply-held" && b.Seed%2 == 0 {
+			// the call that gives up is the first of the multi-request: SendBatch
+			// sees its context end before the (held) reply arrives; the reply must
+			// still reach all the others
+			ownIdx = 0
+		}
 		run.OwnCtx = ownIdx
 	}
 	mk := func(i int, c batchCall, table string) (hrpc.Call, string) {
